@@ -620,6 +620,45 @@ def incremental(ctx: Ctx):
             okm = same_cand and keeps_old and {"current_length", "locs", "action", "current_node"} <= cand_cells and pre_reset and has_closing
             why = f"where({c[0].show(2)} > 0, cand, old): cand reads {sorted(cand_cells)}, before the per-agent reset: {pre_reset}; cand includes the closing leg current node -> depot: {has_closing}"
     ctx.ob("C03.d", "MTSPEnv._step:max_subtour_length", okm, sl.where, why, construct="MTSPEnv._step:max_subtour_length")
+    # the closing leg is added at the step that FINISHES the instance and at no step of a running one: its guards are evaluated
+    # (three-valued) in the two states  (done now, not done before)  and  (not done now, not done before)
+    if nf._fn(m) == "torch.where" and len(m.args) == 4:
+        def _count_of(n0):
+            r = nf._cmp_raw(n0)
+            if r is None:
+                return None
+            lhs, op, rhs = r
+            L = nf.strip(lhs, True)
+            counts = (L.op == "meth" and L.args[1] in ("sum", "count_nonzero")) or nf._fn(L) in ("torch.count_nonzero", "torch.sum")
+            if not (counts and vg.is_const(rhs, 0)):
+                return None
+            inner = nf.strip(L.args[0] if L.op == "meth" else L.args[1], True)
+            incoming = inner.op == "sub" and nf.strip(inner.args[0], True).op == "cell0" and nf.strip(inner.args[0], True).args[1] == "action_mask"
+            return ("was" if incoming else "now"), op
+
+        def state(done_now):
+            def assume(n):
+                n0 = nf.strip(n, True)
+                k = _count_of(n0)
+                if k is None:
+                    return None
+                which, op = k
+                zero = done_now if which == "now" else False       # "no customer open": now / in the incoming mask
+                return {"==": zero, "<=": zero, ">": not zero, "!=": not zero}.get(op)
+            return assume
+
+        def _is_depot(x):
+            x0 = nf.strip(x)
+            return x0.op == "sub" and x0.args[1].op == "tuple" and any(vg.is_const(c_, 0) for c_ in x0.args[1].args) and nf.strip(x0.args[0]).op == "cell0" and nf.strip(x0.args[0]).args[1] == "locs"
+        cl = [(leg, g_) for leg, g_ in _legs(m.args[2]) if nf._fn(leg) in nf.DIST_FN and len(leg.args) >= 3 and (_is_depot(leg.args[1]) or _is_depot(leg.args[2]))]
+        okg, whyg = bool(cl), "no closing leg"
+        for leg, guards in cl:
+            at_finish = [nf.kleene(g, state(True)) == want for g, want in guards]
+            running = [nf.kleene(g, state(False)) == want for g, want in guards]
+            good = bool(guards) and all(at_finish) and not all(running)
+            okg = okg and good
+            whyg = f"closing leg guarded by {[vg.show(g, 3)[:60] for g, _ in guards]}: added at the finishing step {all(at_finish)}, not added while customers remain {not all(running)}"
+        ctx.ob("C03.d", "MTSPEnv._step:closing-leg-at-the-finishing-step", okg, sl.where, whyg, construct="MTSPEnv._step:closing-leg-guard")
     pc = nf.poly(cur)
     okc = bool(pc.terms) and all(_mono_has_agent_factor(fs) for c, fs in pc.monos()) and {"current_length", "locs", "action", "current_node", "agent_idx"} <= vg.cells_of(cur)
     has_return = any("done" in vg.show(n, 2) or True for n in [cur]) and any(nf._fn(nf.strip(n)) == "torch.where" for n in vg.walk(cur))
